@@ -289,3 +289,164 @@ def check(inputs, paired, percell, rejects, max_pairs, short, processed, yields,
         v.append(('log-counters-differ-from-returned', None, {'log_processed': lp, 'log_yields': ly,
                                                                'returned': [processed, dict(yields)]}))
     return v, fates
+
+
+# ------------------------------------------------------------------------------------------------ extensions
+def parse_cli_log(text):
+    """demultiplexing.log as demux.py writes it for a library: one run per "Demultiplexing operation started" line
+    (several when the logs of lane jobs were glued), in every run one loader block per set of mate files.
+    -> [{'blocks': [(processed, {strategy: reads})], 'cumulative': [n after every block], 'finished': bool}]"""
+    runs = []
+    run = None
+    cur = None
+    in_table = False
+    for line in text.split('\n'):
+        if line.startswith('Demultiplexing operation started'):
+            run = {'blocks': [], 'cumulative': [], 'finished': False}
+            runs.append(run)
+            cur, in_table = None, False
+            continue
+        if run is None:
+            continue
+        m = re.match(r'processed (\d+) read pairs$', line)
+        if m:
+            cur = (int(m.group(1)), {})
+            run['blocks'].append(cur)
+            in_table = False
+            continue
+        if line == 'Strategy\tReads':
+            in_table = True
+            continue
+        if in_table:
+            parts = line.split('\t')
+            if len(parts) == 2 and parts[1].isdigit() and cur is not None:
+                cur[1][parts[0]] = cur[1].get(parts[0], 0) + int(parts[1])
+                continue
+            in_table = False
+        m = re.match(r'done, processed:\t(\d+) reads$', line)
+        if m:
+            run['cumulative'].append(int(m.group(1)))
+        if line == 'Demultiplexing finished':
+            run['finished'] = True
+    return runs
+
+
+def check_multi(inputs, paired, percell, rejects, max_pairs, shorts, processed, yields, log_text, out):
+    """Several strategies selected for one run (demux.py -use A,B).
+
+    The property sentence is phrased per selected strategy.  With k strategies it can be read as "every pair once per
+    run" or as "every pair once per strategy"; only what BOTH readings demand is checked here:
+    every consumed pair is written at least once and at most k times over both sinks together, nothing beyond the
+    cut-off, mates synchronised (same ids on the same record index), input order kept (ids never decrease), rejected
+    records carry a reason and the original bases / qualities, processedReadPairs = pairs consumed, the yield counters
+    add up to the records written to the demultiplexed output and name selected strategies only, log = returned.
+    -> (violations [(clause, position or None, detail)], fates)"""
+    v = []
+    n = len(inputs)
+    k = len(shorts)
+    expect_processed = n if max_pairs is None else min(n, max_pairs)
+    mates = ('R1', 'R2') if paired else ('R1',)
+    id_to_pos = {ident(pr[0][0]): i for i, pr in enumerate(inputs)}
+    for which, text in out.problems:
+        v.append((f'{which}-file-malformed', None, text))
+    dem_ok = not any(which == 'demultiplexed' for which, _ in out.problems)
+    rej_ok = not any(which == 'rejects' for which, _ in out.problems)
+
+    def side(name, files, count, cell=None):
+        r1 = files.get('R1', [])
+        ids1 = _ids(r1)
+        if paired:
+            ids2 = _ids(files.get('R2', []))
+            if len(ids1) != len(ids2):
+                v.append((f'{name}-mates-desynchronised', None, {'cell': cell, 'R1_records': len(ids1), 'R2_records': len(ids2)}))
+            elif ids1 != ids2:
+                v.append((f'{name}-mates-desynchronised', None, {'cell': cell, 'R1_ids': ids1[:6], 'R2_ids': ids2[:6]}))
+        elif files.get('R2'):
+            v.append((f'{name}-mates-desynchronised', None, {'cell': cell, 'why': 'R2 records for single end input'}))
+        known = [i for i in ids1 if i in id_to_pos]
+        if len(known) != len(ids1):
+            v.append((f'{name}-record-unidentifiable', None, {'cell': cell, 'headers': [r[0] for r in r1][:3]}))
+        pos = [id_to_pos[i] for i in known]
+        if any(b < a for a, b in zip(pos, pos[1:])):
+            v.append((f'{name}-order-changed', None, {'cell': cell, 'positions': pos[:8]}))
+        for p in pos:
+            count[p] += 1
+        return len(ids1)
+
+    dem_count, rej_count = [0] * n, [0] * n
+    dem_total = 0
+    if dem_ok:
+        for cell, files in sorted(out.dem.items(), key=lambda kv: str(kv[0])):
+            dem_total += side('demultiplexed', files, dem_count, cell)
+            if paired:
+                for mi, mate in enumerate(mates):
+                    for rec in files.get(mate, []):
+                        i = ident(rec[0])
+                        if i not in id_to_pos or not rec[1]:
+                            continue
+                        own, other = inputs[id_to_pos[i]][mi][1], inputs[id_to_pos[i]][1 - mi][1]
+                        if rec[1] not in own and rec[1] in other:
+                            v.append(('demultiplexed-mate-in-wrong-file', id_to_pos[i], {'file': mate, 'record': rec[:2]}))
+    if out.rej is not None and rej_ok:
+        side('rejects', out.rej, rej_count)
+        for mi, mate in enumerate(mates):
+            for rec in out.rej.get(mate, []):
+                i = ident(rec[0])
+                if i not in id_to_pos:
+                    continue
+                pos = id_to_pos[i]
+                _, s, q = inputs[pos][mi]
+                if rec[1] != s or rec[3] != q:
+                    v.append(('reject-bases-or-qualities-altered', pos, {'file': mate, 'written': [rec[1], rec[3]], 'input': [s, q]}))
+                if not has_reason(rec[0]):
+                    v.append(('reject-without-reason', pos, {'file': mate, 'header': rec[0]}))
+    fates = []
+    for i in range(n):
+        d, r = dem_count[i], rej_count[i]
+        if not (dem_ok and rej_ok):
+            fates.append('m')
+        elif i >= expect_processed:
+            if d or r:
+                v.append(('pair-beyond-maxReadPairs-written', i, {'demultiplexed': d, 'rejects': r}))
+            fates.append('.')
+        elif d + r > k:
+            v.append(('pair-written-more-often-than-strategies-selected', i, {'demultiplexed': d, 'rejects': r, 'strategies': k}))
+            fates.append('D')
+        elif d + r == 0:
+            if out.rej is not None:
+                v.append(('pair-vanished', i, {'header': inputs[i][0][0]}))
+                fates.append('-')
+            else:
+                fates.append('?')
+        else:
+            fates.append('B' if d and r else ('A' if d else 'R'))
+    if processed != expect_processed:
+        v.append(('processedReadPairs-wrong', None, {'returned': processed, 'expected': expect_processed}))
+    y = dict(yields)
+    got = sum(y.pop(s, 0) for s in shorts)
+    if dem_ok and got != dem_total:
+        v.append(('yield-counter-differs-from-records-written', None,
+                  {'strategyYields': dict(yields), 'records_in_demultiplexed_R1': dem_total}))
+    if any(y.values()):
+        v.append(('yield-counter-for-unselected-strategy', None, y))
+    # per strategy: every demultiplexed record names the strategy that produced it (MX tag = short name, "put into
+    # EVERY fastq record"); when all records of the run are attributable to a selected strategy the single counters
+    # can be compared as well
+    if dem_ok and k > 1:
+        by_mx = {}
+        for files in out.dem.values():
+            for rec in files.get('R1', []):
+                mx = [f[3:] for f in rec[0].lstrip('@').split(';') if f.startswith('MX:')]
+                by_mx[mx[0] if len(mx) == 1 else None] = by_mx.get(mx[0] if len(mx) == 1 else None, 0) + 1
+        if all(m in shorts for m in by_mx):
+            for s_ in shorts:
+                if dict(yields).get(s_, 0) != by_mx.get(s_, 0):
+                    v.append(('yield-counter-of-one-strategy-differs-from-its-records', None,
+                              {'strategyYields': dict(yields), 'records_by_MX_tag': by_mx}))
+                    break
+    if log_text is not None:
+        lp, ly = parse_log(log_text)
+        if lp != processed or {s: c for s, c in ly.items() if c} != {s: c for s, c in dict(yields).items() if c}:
+            v.append(('log-counters-differ-from-returned', None, {'log_processed': lp, 'log_yields': ly,
+                                                                   'returned': [processed, dict(yields)]}))
+    return v, fates
